@@ -211,7 +211,10 @@ DoPrint(s) ==
   LET r == Eval(s.e, heap, cur, ctx) IN
   IF ~r.ok THEN Raise(r.class, s.id) /\ UNCHANGED <<frames, heap, cur, ctx, contents, content, bufs, writer, out, rv>>
   ELSE /\ LET ch == (IF s.f = "" THEN "V:" ELSE "R:" \o s.f \o ":") \o r.v
-              w  == IF r.v = Nil THEN [out |-> out, bufs |-> bufs] ELSE WriteTo(writer, ch, out, bufs)
+              \* {{ sw: includeIfExists("swinner"), e }}: the first argument renders a template that itself uses a
+              \* SafeWriter ({{ "swi" | raw }}) and evaluates to true; both arguments go through sw
+              w  == IF s.g = "arginc" THEN WriteAll(writer, <<"R:raw:swi", "R:" \o s.f \o ":true", ch>>, out, bufs)
+                    ELSE IF r.v = Nil THEN [out |-> out, bufs |-> bufs] ELSE WriteTo(writer, ch, out, bufs)
           IN out' = w.out /\ bufs' = w.bufs
        /\ IF s.g = "argfail"      \* {{ sw: e, fail() }}: e is written, then the next argument fails
           THEN Raise("func", s.id) /\ UNCHANGED frames
